@@ -1110,27 +1110,36 @@ class AsyncBackgroundBatcher(Generic[A_contra, R_co]):
 
         fut: 'aio.Future[R_co]'
 
+        # The future is shared with the batch and any other callers of
+        # the same key, so shield it from this caller's cancellation
+
         try:
             fut = self._retention_cache[key]
         except KeyError:
             pass
         else:
-            return await fut
+            return await aio.shield(fut)
 
         fut = self._retention_cache[key] = self._loop.create_future()
+        fut.add_done_callback(partial(self._release_key, key))
         await self._queue.put((key, arg, fut))
+        return await aio.shield(fut)
 
-        try:
-            return await fut
-        finally:
-            if self.retention_timeout > 0:
-                self._loop.call_later(
-                    self.retention_timeout,
-                    self._retention_cache.pop,
-                    key,
-                )
-            else:
-                del self._retention_cache[key]
+    def _release_key(self, key: str, fut: 'aio.Future[R_co]') -> None:
+        """
+        Remove the completed future for the given key from the retention
+        cache, either immediately or after the retention timeout.
+        """
+        if not fut.cancelled():
+            fut.exception()  # Mark retrieved in case all callers left
+        if self.retention_timeout > 0:
+            self._loop.call_later(
+                self.retention_timeout,
+                self._retention_cache.pop,
+                key, None,
+            )
+        else:
+            self._retention_cache.pop(key, None)
 
     def _daemon_task(
         self,
